@@ -31,6 +31,9 @@ class Rng:
         return "[%s,%s]" % (self.lo if abs(self.lo) < 10 ** 6 else "2^%d" % self.lo.bit_length(), self.hi if abs(self.hi) < 10 ** 6 else "~2^%d" % self.hi.bit_length())
 
 
+INT_TYPES = ("u8", "u16", "u32", "u64", "u128", "usize", "i8", "i16", "i32", "i64", "i128", "isize")
+
+
 def ty_range(ty):
     return INT_RANGES.get((ty or "").strip())
 
@@ -256,6 +259,25 @@ class RangeDomain:
         n = fk.name
         d = fk.d
         a = [deref_value(ex, x) for x in args]
+        # lossless / checked integer conversions keep the interval (`u128::from(x)`, `usize::try_from(d)`)
+        if n in ("from", "into", "try_from", "try_into") and len(a) == 1 and d.startswith("core::convert::num"):
+            import re as _re
+            mm = _re.search(r"(?:From|TryFrom)<(\w+)> for (\w+)>", d)
+            v = a[0]
+            if mm and mm.group(2) in INT_TYPES:
+                lo, hi = ty_range(mm.group(2))
+                if isinstance(v, int):
+                    vl, vh = v, v
+                elif isinstance(v, Rng):
+                    vl, vh = v.lo, v.hi
+                else:
+                    src = ty_range(mm.group(1))
+                    vl, vh = src if src else (lo, hi)
+                if n in ("from", "into"):
+                    return v if isinstance(v, (int, Rng)) else self.mk(vl, vh)
+                if lo <= vl and vh <= hi:
+                    return Adt("core::result::Result", "Ok", [v if isinstance(v, (int, Rng)) else self.mk(vl, vh)])
+                return TOP
         if n in ("enumerate", "take", "skip", "zip", "map", "rev") and a:
             # literal ranges used directly as iterators
             a = [Iter(range(x.fields[0], x.fields[1])) if isinstance(x, Adt) and x.name.endswith("ops::Range") and len(x.fields) == 2 and all(isinstance(y, int) for y in x.fields) else x for x in a]
